@@ -238,6 +238,40 @@ pub fn run_x(line: &str) -> String {
 
 // ---------------------------------------------------------------- real readers
 
+/// per-record output whose `Default` counts how often the parallel functions create one
+pub struct CountedOut(u64);
+static OUT_CREATED: std::sync::atomic::AtomicUsize = std::sync::atomic::AtomicUsize::new(0);
+impl Default for CountedOut {
+    fn default() -> Self {
+        OUT_CREATED.fetch_add(1, std::sync::atomic::Ordering::SeqCst);
+        CountedOut(0)
+    }
+}
+
+/// (largest batch, number of batches, size of the first batch) of plain record-set reads at this
+/// capacity (sequential reference)
+fn batch_shape(fmt: &str, input: &[u8], cap: usize) -> (usize, usize, usize) {
+    let mut sizes = vec![];
+    if fmt == "fa" {
+        let mut r = fasta::Reader::with_capacity(input, cap);
+        let mut rs = fasta::RecordSet::default();
+        while let Some(Ok(())) = r.read_record_set(&mut rs) {
+            sizes.push(rs.len());
+        }
+    } else {
+        let mut r = fastq::Reader::with_capacity(input, cap);
+        let mut rs = fastq::RecordSet::default();
+        while let Some(Ok(())) = r.read_record_set(&mut rs) {
+            sizes.push(rs.len());
+        }
+    }
+    (sizes.iter().cloned().max().unwrap_or(0), sizes.len(), sizes.first().cloned().unwrap_or(0))
+}
+
+fn max_batch(fmt: &str, input: &[u8], cap: usize) -> usize {
+    batch_shape(fmt, input, cap).0
+}
+
 fn rec_out(head: &[u8], seq_len: usize) -> u64 {
     (head.len() as u64) * 100_000 + seq_len as u64
 }
@@ -258,6 +292,8 @@ pub fn run_y(line: &str) -> String {
         None => return "bad-case".to_string(),
     };
     let seq_tail = sequential_tail(&fmt, &input, cap);
+    let mb = max_batch(&fmt, &input, cap);
+    OUT_CREATED.store(0, std::sync::atomic::Ordering::SeqCst);
     let (tx, rx) = mpsc::channel();
     std::thread::spawn(move || {
         let r = std::panic::catch_unwind(std::panic::AssertUnwindSafe(|| {
@@ -270,12 +306,12 @@ pub fn run_y(line: &str) -> String {
                     rdr,
                     nt,
                     q,
-                    |rec, out: &mut u64| {
-                        *out = rec_out(rec.head(), rec.owned_seq().len());
+                    |rec, out: &mut CountedOut| {
+                        out.0 = rec_out(rec.head(), rec.owned_seq().len());
                     },
                     |rec, out| {
                         let o = rec.to_owned_record();
-                        seen.push(format!("h={}:s={}:o={}", hex(&o.head), hex(&o.seq), if *out == rec_out(&o.head, o.seq.len()) { 1 } else { 0 }));
+                        seen.push(format!("h={}:s={}:o={}", hex(&o.head), hex(&o.seq), if out.0 == rec_out(&o.head, o.seq.len()) { 1 } else { 0 }));
                         count += 1;
                         if stop == Some(count) {
                             Some(())
@@ -297,12 +333,12 @@ pub fn run_y(line: &str) -> String {
                     rdr,
                     nt,
                     q,
-                    |rec, out: &mut u64| {
-                        *out = rec_out(rec.head(), rec.seq().len());
+                    |rec, out: &mut CountedOut| {
+                        out.0 = rec_out(rec.head(), rec.seq().len());
                     },
                     |rec, out| {
                         let o = rec.to_owned_record();
-                        seen.push(format!("h={}:s={}:q={}:o={}", hex(&o.head), hex(&o.seq), hex(&o.qual), if *out == rec_out(&o.head, o.seq.len()) { 1 } else { 0 }));
+                        seen.push(format!("h={}:s={}:q={}:o={}", hex(&o.head), hex(&o.seq), hex(&o.qual), if out.0 == rec_out(&o.head, o.seq.len()) { 1 } else { 0 }));
                         count += 1;
                         if stop == Some(count) {
                             Some(())
@@ -326,7 +362,13 @@ pub fn run_y(line: &str) -> String {
         Ok(Err(())) => "PANIC".to_string(),
         Err(_) => "HANG".to_string(),
     };
-    format!("{} SEQ:{}", r, seq_tail)
+    format!(
+        "{} SEQ:{} dc={} mb={}",
+        r,
+        seq_tail,
+        OUT_CREATED.load(std::sync::atomic::Ordering::SeqCst),
+        mb
+    )
 }
 
 /// how sequential reading of the same input ends
@@ -350,4 +392,148 @@ fn sequential_tail(fmt: &str, input: &[u8], cap: usize) -> String {
             }
         }
     }
+}
+
+// ---------------------------------------------------------------- `Z`: the `_init` variants with failing initialisers
+
+#[derive(Debug)]
+enum ZErr {
+    Reader,
+    RsetData,
+    RecData,
+    Fa(fasta::Error),
+    Fq(fastq::Error),
+}
+struct EReader;
+struct ERset;
+struct ERec;
+impl From<EReader> for ZErr {
+    fn from(_: EReader) -> ZErr {
+        ZErr::Reader
+    }
+}
+impl From<ERset> for ZErr {
+    fn from(_: ERset) -> ZErr {
+        ZErr::RsetData
+    }
+}
+impl From<ERec> for ZErr {
+    fn from(_: ERec) -> ZErr {
+        ZErr::RecData
+    }
+}
+impl From<fasta::Error> for ZErr {
+    fn from(e: fasta::Error) -> ZErr {
+        ZErr::Fa(e)
+    }
+}
+impl From<fastq::Error> for ZErr {
+    fn from(e: fastq::Error) -> ZErr {
+        ZErr::Fq(e)
+    }
+}
+
+/// `Z <fmt> <T> <Q> <cap> <ri_fail 0|1> <rset_fail -|c> <rec_fail -|k> <stop -|j> <inputhex>`
+pub fn run_z(line: &str) -> String {
+    use std::sync::atomic::{AtomicUsize, Ordering};
+    let t: Vec<&str> = line.trim().split(' ').collect();
+    if t.len() != 10 {
+        return "bad-case".to_string();
+    }
+    let fmt = t[1].to_string();
+    let nt: u32 = t[2].parse().unwrap_or(1);
+    let q: usize = t[3].parse().unwrap_or(1);
+    let cap: usize = t[4].parse().unwrap_or(64);
+    let ri_fail = t[5] == "1";
+    let opt = |s: &str| if s == "-" { None } else { s.parse::<usize>().ok() };
+    let rset_fail = opt(t[6]);
+    let rec_fail = opt(t[7]);
+    let stop = opt(t[8]);
+    let input = match unhex(t[9]) {
+        Some(i) => i,
+        None => return "bad-case".to_string(),
+    };
+    let (mb, nb, fb) = batch_shape(&fmt, &input, cap);
+    let (tx, rx) = mpsc::channel();
+    std::thread::spawn(move || {
+        let r = std::panic::catch_unwind(std::panic::AssertUnwindSafe(|| {
+            let rset_calls = AtomicUsize::new(0);
+            let rec_calls = AtomicUsize::new(0);
+            let mut seen = 0usize;
+            let mut bad = 0usize;
+            let res: Result<Option<()>, ZErr> = if fmt == "fa" {
+                use fasta::Record;
+                parallel::parallel_fasta_init(
+                    nt,
+                    q,
+                    || if ri_fail { Err(EReader) } else { Ok(fasta::Reader::with_capacity(std::io::Cursor::new(input.clone()), cap)) },
+                    || if Some(rec_calls.fetch_add(1, Ordering::SeqCst)) == rec_fail { Err(ERec) } else { Ok(0u64) },
+                    || if Some(rset_calls.fetch_add(1, Ordering::SeqCst)) == rset_fail { Err(ERset) } else { Ok(0u8) },
+                    |rec, out: &mut u64, _s: &mut u8| {
+                        *out = rec_out(rec.head(), rec.owned_seq().len());
+                    },
+                    |rec, out: &mut u64, _s: &mut u8| {
+                        let o = rec.to_owned_record();
+                        if *out != rec_out(&o.head, o.seq.len()) {
+                            bad += 1;
+                        }
+                        seen += 1;
+                        if stop == Some(seen) {
+                            Some(())
+                        } else {
+                            None
+                        }
+                    },
+                )
+            } else {
+                use fastq::Record;
+                parallel::parallel_fastq_init(
+                    nt,
+                    q,
+                    || if ri_fail { Err(EReader) } else { Ok(fastq::Reader::with_capacity(std::io::Cursor::new(input.clone()), cap)) },
+                    || if Some(rec_calls.fetch_add(1, Ordering::SeqCst)) == rec_fail { Err(ERec) } else { Ok(0u64) },
+                    || if Some(rset_calls.fetch_add(1, Ordering::SeqCst)) == rset_fail { Err(ERset) } else { Ok(0u8) },
+                    |rec, out: &mut u64, _s: &mut u8| {
+                        *out = rec_out(rec.head(), rec.seq().len());
+                    },
+                    |rec, out: &mut u64, _s: &mut u8| {
+                        let o = rec.to_owned_record();
+                        if *out != rec_out(&o.head, o.seq.len()) {
+                            bad += 1;
+                        }
+                        seen += 1;
+                        if stop == Some(seen) {
+                            Some(())
+                        } else {
+                            None
+                        }
+                    },
+                )
+            };
+            let tail = match res {
+                Ok(Some(())) => "OK:STOP".to_string(),
+                Ok(None) => "OK:END".to_string(),
+                Err(ZErr::Reader) => "E:init.reader".to_string(),
+                Err(ZErr::RsetData) => "E:init.rset".to_string(),
+                Err(ZErr::RecData) => "E:init.rec".to_string(),
+                Err(ZErr::Fa(e)) => format!("E:parse.{}", hex(e.to_string().as_bytes())),
+                Err(ZErr::Fq(e)) => format!("E:parse.{}", hex(e.to_string().as_bytes())),
+            };
+            format!(
+                "seen={} bad={} {} rsetcalls={} reccalls={}",
+                seen,
+                bad,
+                tail,
+                rset_calls.load(Ordering::SeqCst),
+                rec_calls.load(Ordering::SeqCst)
+            )
+        }));
+        let _ = tx.send(r.map_err(|_| ()));
+    });
+    let r = match rx.recv_timeout(Duration::from_secs(8)) {
+        Ok(Ok(s)) => s,
+        Ok(Err(())) => "PANIC".to_string(),
+        Err(_) => "HANG".to_string(),
+    };
+    format!("{} mb={} nb={} fb={}", r, mb, nb, fb)
 }
